@@ -1160,6 +1160,24 @@ impl Interp {
                         tags.push("insert.unique_concurrent".into());
                     }
                 }
+                // re-insert of a unique key whose committed row this transaction deleted before: if the transaction
+                // then does not commit, the index entry is lost (finding F-C06-index-entry-lost-after-rolled-back-reinsert)
+                if let Stmt::Insert { table, cols: None, rows } = &stmt {
+                    if let (Some(tb), Some(ct)) = (txn.view.tables.get(table), self.model.committed.tables.get(table)) {
+                        let deleted_keys: Vec<(usize, String)> = txn
+                            .effects
+                            .iter()
+                            .filter_map(|e| match e {
+                                Effect::Delete { table: t2, id } if t2 == table => ct.rows.get(id),
+                                _ => None,
+                            })
+                            .flat_map(|r| (0..tb.def.uniques.len()).filter_map(|ui| Self::key_of(&tb.def, ui, r).map(|k| (ui, k))).collect::<Vec<_>>())
+                            .collect();
+                        if rows.iter().any(|r| (0..tb.def.uniques.len()).any(|ui| Self::key_of(&tb.def, ui, r).map(|k| deleted_keys.contains(&(ui, k))).unwrap_or(false))) {
+                            tags.push("unique.reinsert_of_key_deleted_in_same_txn".into());
+                        }
+                    }
+                }
                 if let Stmt::Delete { table, .. } = &stmt {
                     tags.push("delete.in_txn".into());
                     if txn.view.tables.get(table).map(|t| !t.def.uniques.is_empty()).unwrap_or(false) {
